@@ -9,6 +9,7 @@ import SdModel.Model.UArr
 import SdModel.Model.UMap
 import SdModel.Model.RMap
 import Driver.Derive
+import SdModel.Model.Cost
 
 open Sx
 
@@ -239,6 +240,16 @@ def handle (name : String) : List Sx → Sx
     | _, _ => tag "bad-req" []
   | _ => tag "bad-req" []
 
+def handleCost : List Sx → Sx
+  | [t, s] =>
+    match nats? t, nats? s with
+    | some t, some s =>
+      tag "ok" [tag "cells" [ofNat (Cost.hirschCost eqNat costs Gen.levCutoff t s 0 t.length 0 s.length)],
+                tag "bound" [ofNat ((Gen.levCutoff + 3) * (t.length + s.length + 1))],
+                tag "script" [ofNat (match Lev.hirschberg eqNat costs Gen.levCutoff t s with | some d => d.length | none => 0)]]
+    | _, _ => tag "bad-req" []
+  | _ => tag "bad-req" []
+
 def handleEnc : List Sx → Sx
   | [f, s] =>
     match fmtOf f, scriptOf s with
@@ -324,6 +335,7 @@ def dispatch (legacy : Bool) (x : Sx) : Sx :=
   | .list (.atom "lev-nan" :: rest) => DOrd.handle "lev-nan" rest
   | .list (.atom "hirsch-nan" :: rest) => DOrd.handle "hirsch-nan" rest
   | .list (.atom "enc" :: rest) => DOrd.handleEnc rest
+  | .list (.atom "cost" :: rest) => DOrd.handleCost rest
   | .list (.atom "derive" :: rest) => DDerive.handle rest
   | .list (.atom "uarr-cmp" :: rest) => DUn.uarr false rest
   | .list (.atom "uarr-apply3" :: rest) => DUn.uarr true rest
